@@ -88,9 +88,9 @@ func Checks() map[string]*simcore.Check {
 		},
 		"C53": {
 			ID: "C53", Engine: "netsim", Level: "exploration",
-			Rule: "plan = chain seed, update version (old / electra state indices), checkpoint period, 2-12 periods, signer threshold (1..342), time enforcement on/off, clock position, 10-80 operations: deliver an update (genuine with chosen slot / signer count around the threshold / finality, or one of 8 forgeries; next committee genuine / missing / fake / of another period; any period order, repeats), check a signed header (genuine / other period's / forger's committee, signer count around the threshold, tampered slot / state root / signer bits / signature, signature slot across the period boundary), restart on the same disk, crash losing the last 1-4 write units, clock advance, fail the k-th next KV write, a later genuine checkpoint; then faults stop and all genuine updates are delivered in order. Non-trivial = at least one forgery, fault or rejection class fired; distinct = distinct hashes of (verdicts, held ranges after every step).",
+			Rule: "plan = chain seed, update version (old / electra state indices), checkpoint period, 2-12 periods, signer threshold (1..342), time enforcement on/off, clock position, 10-80 operations: deliver an update (genuine with chosen slot / signer count around the threshold / finality, or one of 12 forgeries incl. period mix-ups (signature slot / signer / header of a neighbouring period); next committee genuine / missing / fake / of another period; any period order, repeats), check a signed header (genuine / other period's / forger's committee, signer count around the threshold, tampered slot / state root / signer bits / signature, signature slot across the period boundary), restart on the same disk, crash losing the last 1-4 write units, clock advance, fail the k-th next KV write, a later genuine checkpoint; then faults stop and all genuine updates are delivered in order. Non-trivial = at least one forgery, fault or rejection class fired; distinct = distinct hashes of (verdicts, held ranges after every step).",
 			Assumptions: []string{
-				"the dummy signature scheme of beacon/light/test_helpers.go stands in for BLS; the forging server never uses the first 32 bytes of a genuine committee (its 'private key' in that scheme)",
+				"the dummy signature scheme of beacon/light/test_helpers.go stands in for BLS; the forging server never signs with the genuine committee of the period an update or header belongs to (in the dummy scheme the committee's first 32 bytes act as its private key); in the period mix-up forgeries it does hold signatures of a genuine committee of ANOTHER period",
 				"the genuine chain has exactly one committee per period (no genuine reorgs across period boundaries)",
 				"updates pass LightClientUpdate.Validate before InsertUpdate, as in beacon/light/api; signed headers are checked through HeadTracker.validate (the exported entry points additionally verify an execution payload proof that is out of scope)",
 				"thresholds above the 2/3 supermajority (342) are not drawn: a finalized update outranks the minimum score regardless of the configured count",
